@@ -398,6 +398,203 @@ def faceFaceArray (t : TopoIn) : Except Err Table :=
 
 end TopoIn
 
+/-! ## a derived edge table keeps the edge numbering of a supplied table
+
+`Mesh2DTopology.edge_node_array` after the repairs `87d11e3` (a supplied `face_edge_connectivity`)
+and `3f3bd50` (a supplied `edge_face_connectivity`): when the dataset has no valid
+`edge_node_connectivity` the edges are derived from the faces, but a supplied table that already
+numbers the edges decides which edge is which.  The two blocks are mirrored literally, with
+their fall-backs.  Everything above stays as it was; the definitions below are additions. -/
+
+/-- `renumbered[k]` on an array of `n` rows, numpy semantics: a negative index counts from the
+end; `none` = IndexError -/
+def numpyIndex (n : Nat) (k : Int) : Option Nat :=
+  if 0 ≤ k ∧ k < (n : Int) then some k.toNat
+  else if -(n : Int) ≤ k ∧ k < 0 then some (k + (n : Int)).toNat
+  else none
+
+/-- entry `(r, c)` of a table; `none` = outside the table -/
+def cellOf (t : Table) (r c : Nat) : Option (Option Int) := (t[r]?).bind (·[c]?)
+
+/-- the row `renumbered[face_edge[face, column]] = sorted(pair)` writes to: `none` where
+`face_edge[face, column]` is outside the table, masked (a masked scalar is not an index), or
+not a row of `renumbered` — IndexError in each case -/
+def writeTarget (n : Nat) (faceEdge : Table) (fi c : Nat) : Option Nat :=
+  match cellOf faceEdge fi c with
+  | some (some k) => numpyIndex n k
+  | _ => none
+
+/-- the writes of one face: column by column, (row written, sorted node pair) -/
+def faceWrites (n : Nat) (faceEdge : Table) (f : List Int) (fi : Nat) : List (Option (Nat × Pair)) :=
+  (facePairs f).zipIdx.map fun pc => (writeTarget n faceEdge fi pc.2).map fun i => (i, normPair pc.1)
+
+/-- every assignment `renumbered[face_edge[face, column]] = sorted(pair)` in the order the code
+makes them (faces in order, columns in order); `none` = one of them raises IndexError -/
+def faceEdgeWrites (n : Nat) (faces : List (List Int)) (faceEdge : Table) : Option (List (Nat × Pair)) :=
+  optAll (faces.zipIdx.flatMap fun ff => faceWrites n faceEdge ff.1 ff.2)
+
+/-- a row of `numpy.ma.masked_all_like(edge_node)` that was never written -/
+def maskedRow : List (Option Int) := [none, none]
+
+/-- the writes applied in order to `n` masked rows: a later write to the same row wins, a row
+no write names stays masked -/
+def applyWrites (n : Nat) (ws : List (Nat × Pair)) : Table :=
+  ws.foldl (fun rows w => rows.set w.1 (pairRow w.2)) (List.replicate n maskedRow)
+
+/-- `edge_node_array`, the block for a supplied `face_edge_connectivity` (repair `87d11e3`):
+edge `face_edge[face, column]` is the `column`-th consecutive node pair of `face`, stored
+(low, high).  The table has as many rows as the mesh has edges (`make_edge_node_array`).
+There is no fall-back in the code: an entry that is masked where the face has a side, or
+outside the edge range, raises IndexError; where the supplied table gives two different node
+pairs the same number the later one stays and another row stays masked. -/
+def makeEdgeNodeFollowingFaceEdge (faces : List (List Int)) (faceEdge : Table) : Except Err Table :=
+  let n := (makeEdgeNode faces).length
+  match faceEdgeWrites n faces faceEdge with
+  | none => .error .index
+  | some ws => .ok (applyWrites n ws)
+
+/-- `sides[frozenset(pair)]`: the faces that have the undirected node pair `e` as a side (each
+once, whatever the number of its sides with that pair), as face indexes -/
+def sideFaces (faces : List (List Int)) (e : Pair) : List Int :=
+  (faces.zipIdx.filter fun ff => ((facePairs ff.1).map normPair).contains (normPair e)).map
+    fun ff => Int.ofNat ff.2
+
+/-- equality of two `frozenset`s of face indexes given as lists -/
+def sameFaces (a b : List Int) : Bool := a.all (b.contains ·) && b.all (a.contains ·)
+
+/-- `by_faces[key].pop(0)` on the sides not used yet (kept in first-seen order, the insertion
+order of the `sides` dict): the first remaining side whose set of faces is `key`, and the
+rest; `none` = IndexError (pop from an empty list) -/
+def takeSide (faces : List (List Int)) (key : List Int) : List Pair → Option (Pair × List Pair)
+  | [] => none
+  | e :: rest =>
+    if sameFaces (sideFaces faces e) key then some (e, rest)
+    else (takeSide faces key rest).map fun r => (r.1, e :: r.2)
+
+/-- the loop over the rows of `edge_face`: each row takes the first unused side bordering
+exactly its faces; `none` = IndexError at some row -/
+def matchEdgeFace (faces : List (List Int)) : List Pair → List (List Int) → Option (List Pair)
+  | _, [] => some []
+  | unused, key :: keys =>
+    match takeSide faces key unused with
+    | none => none
+    | some (e, rest) => (matchEdgeFace faces rest keys).map (e :: ·)
+
+/-- `edge_node_array`, the block for a supplied `edge_face_connectivity` (repair `3f3bd50`):
+edge `e` is a side of exactly the faces in row `e` (masked entries dropped, as a set).  Sides
+with the same set of faces — the boundary sides of one face — are interchangeable as far as
+the table goes; they are handed out in first-seen order.  `none`: the table does not describe
+the sides of the faces (some row finds no unused side with its faces, in particular when there
+are more rows than sides): the code catches the IndexError and returns its own numbering.
+With fewer rows than sides the remaining rows stay masked. -/
+def makeEdgeNodeFollowingEdgeFace (faces : List (List Int)) (edgeFace : Table) : Option Table :=
+  let own := makeEdgeNode faces
+  (matchEdgeFace faces own (edgeFace.map compress)).map fun w =>
+    w.map pairRow ++ List.replicate (own.length - w.length) maskedRow
+
+/-- **the supplied `face_edge` table describes the faces** (decidable): every side of every
+face has an entry that is a row of the edge table, and two sides have the same entry exactly
+when they are the same undirected node pair -/
+def faceEdgeDescribes (faces : List (List Int)) (faceEdge : Table) : Bool :=
+  match faceEdgeWrites (makeEdgeNode faces).length faces faceEdge with
+  | none => false
+  | some ws => ws.all fun a => ws.all fun b => decide (a.1 = b.1 ↔ a.2 = b.2)
+
+/-- the supplied `face_edge` table has the layout of a derived one: a row per face, as wide as
+the face-node table, a non-negative entry for every side of the face and masked cells after them -/
+def faceEdgeShaped (w : Nat) (faces : List (List Int)) (faceEdge : Table) : Bool :=
+  faceEdge.length == faces.length &&
+  (faces.zip faceEdge).all fun fr =>
+    fr.2.length == w && fr.2 == pad w (compress fr.2) && (compress fr.2).length == fr.1.length
+      && (compress fr.2).all (0 ≤ ·)
+
+/-- **the supplied `edge_face` table describes the sides** (decidable): it has as many rows as
+the mesh has sides, and every row in turn finds a side, not taken by an earlier row, that
+borders exactly the faces the row lists -/
+def edgeFaceDescribes (faces : List (List Int)) (edgeFace : Table) : Bool :=
+  edgeFace.length == (makeEdgeNode faces).length &&
+    (matchEdgeFace faces (makeEdgeNode faces) (edgeFace.map compress)).isSome
+
+namespace TopoIn
+
+/-- the derived `edge_node_array`, in the code's order of precedence: a supplied valid
+`face_edge` table is followed; else a supplied valid `edge_face` table is followed (own
+numbering if it does not describe the sides); else the own numbering.  An exception raised
+while testing or decoding the supplied table propagates. -/
+def derivedEdgeTable (t : TopoIn) (faces : List (List Int)) : Except Err Table :=
+  match t.faceEdge with
+  | some (.error e) => .error e
+  | some (.ok fe) => makeEdgeNodeFollowingFaceEdge faces fe
+  | none =>
+    match t.edgeFace with
+    | some (.error e) => .error e
+    | some (.ok ef) =>
+      match makeEdgeNodeFollowingEdgeFace faces ef with
+      | some tab => .ok tab
+      | none => .ok ((derivedEdges t.numbering faces).map pairRow)
+    | none => .ok ((derivedEdges t.numbering faces).map pairRow)
+
+/-- `edge_node_array` as it is now: supplied valid `edge_node` → as given; else derived from
+the faces (`make_edge_node_array` runs first, so its exceptions come first) in the numbering
+of `derivedEdgeTable` -/
+def edgeNodeArrayN (t : TopoIn) : Except Err Table :=
+  if !t.hasEdgeDim then .error .noEdgeDim
+  else match t.edgeNode with
+    | some tab => tab
+    | none => match t.faces with
+      | .error e => .error e
+      | .ok faces => t.derivedEdgeTable faces
+
+/-- `edge_count` as it is now: the size of the edge dimension if the dataset has it, else the
+number of rows of `make_edge_node_array()` -/
+def edgeCountN (t : TopoIn) : Except Err Nat :=
+  if !t.hasEdgeDim then .error .noEdgeDim
+  else match t.edgeDimSize with
+    | some n => .ok n
+    | none => match t.faces with
+      | .error e => .error e
+      | .ok faces => .ok (makeEdgeNode faces).length
+
+/-- `face_edge_array` over `edgeNodeArrayN` -/
+def faceEdgeArrayN (t : TopoIn) : Except Err Table :=
+  match t.faceEdge with
+  | some tab => tab
+  | none =>
+    if let some e := t.fillValueErr then .error e else
+    match t.edgeNodeArrayN with
+    | .error e => .error e
+    | .ok en =>
+      match pairsOfTable en with
+      | none => .error .unmodelled
+      | some pairs => match t.faces with
+        | .error e => .error e
+        | .ok faces => makeFaceEdge t.width pairs faces
+
+/-- `edge_face_array` over `edgeCountN`, `faceEdgeArrayN` -/
+def edgeFaceArrayN (t : TopoIn) : Except Err Table :=
+  match t.edgeFace with
+  | some tab => tab
+  | none =>
+    match t.edgeCountN with
+    | .error e => .error e
+    | .ok n =>
+      if let some e := t.fillValueErr then .error e else
+      match t.faceEdgeArrayN with
+      | .error e => .error e
+      | .ok fe => makeEdgeFace n (fe.map compress)
+
+/-- `face_face_array` over `edgeFaceArrayN` -/
+def faceFaceArrayN (t : TopoIn) : Except Err Table :=
+  match t.faceFace with
+  | some tab => tab
+  | none =>
+    if let some e := t.fillValueErr then .error e else
+    match t.edgeFaceArrayN with
+    | .error e => .error e
+    | .ok ef => makeFaceFace t.nfaces t.width ef
+
+end TopoIn
+
 /-! ## `UGrid._make_polygons` -/
 
 /-- vertex ring of every face: coordinates of its nodes in order (`none` where a node index
